@@ -23,6 +23,7 @@ for l in open(p):
 with open(os.path.join(V, 'rules', 'baseline_fns.txt'), 'w') as f:
     for k in sorted(out):
         f.write('%s\t%d\t%s\t%s\n' % ((k,) + out[k]))
+import canon  # noqa: E402
 h = json.loads(open(p).readline())
 roots = {'track', 'trackers', 'utils', 'distance', 'prelude', 'examples'}
 items = set()
@@ -37,4 +38,15 @@ for i in h['impls']:
 with open(os.path.join(V, 'rules', 'baseline_items.txt'), 'w') as f:
     for k, v in sorted(items):
         f.write('%s\t%s\n' % (k, v))
-print(len(out), 'functions', len(items), 'items')
+built = canon.built_in(open(p).read().split('\n')[1:])
+json.dump({a['path']: {'kind': a['kind'], 'variants': [{'name': v['name'], 'built_in': sorted(built.get((a['path'], v['name']), [])), 'fields': [
+    {'name': f['name'], 'ty': f['ty']} for f in v['fields']]} for v in a['variants']]} for a in h['adts']},
+    open(os.path.join(V, 'rules', 'baseline_adts.json'), 'w'), indent=0, sort_keys=True)
+ti = {}
+for i in h['impls']:
+    t = i.get('trait')
+    if t and t.split('::', 1)[0] in roots:
+        ti.setdefault(t.split('<', 1)[0], set()).add(canon.leaf(i['self']))
+json.dump({k: sorted(v) for k, v in ti.items()}, open(os.path.join(V, 'rules', 'baseline_trait_impls.json'), 'w'),
+          indent=0, sort_keys=True)
+print(len(out), 'functions', len(items), 'items', len(h['adts']), 'adts', len(ti), 'traits')
